@@ -262,6 +262,49 @@ inline std::string to_integer_literal(
     return std::string{value};
 }
 
+// escapes a single character to be used inside C++ character or string literal
+inline std::string escape_literal_char(const char ch)
+{
+    switch(ch)
+    {
+    case '\\':
+        return "\\\\";
+    case '"':
+        return "\\\"";
+    case '\'':
+        return "\\'";
+    case '\n':
+        return "\\n";
+    case '\r':
+        return "\\r";
+    case '\t':
+        return "\\t";
+    default:
+        break;
+    }
+
+    const auto uch = static_cast<unsigned char>(ch);
+    if((uch < 0x20) || (uch == 0x7F))
+    {
+        // 3-digit octal escape can't absorb following characters
+        return fmt::format("\\{:03o}", static_cast<unsigned>(uch));
+    }
+
+    return std::string(1, ch);
+}
+
+// makes schema string safe to be used as a content of C++ string literal
+inline std::string escape_string_literal(const std::string_view str)
+{
+    std::string res;
+    res.reserve(str.size());
+    for(const auto ch : str)
+    {
+        res += escape_literal_char(ch);
+    }
+    return res;
+}
+
 inline std::string get_compiled_header_top_comment()
 {
     static std::string str = fmt::format(
@@ -327,7 +370,7 @@ inline std::string make_string_constant(
     }
 
     std::string value;
-    value.append("\"").append(const_value);
+    value.append("\"").append(escape_string_literal(const_value));
     // add padding if necessary
     const auto padding_length = type_length - const_value.size();
     for(std::size_t i = 0; i != padding_length; i++)
@@ -352,7 +395,7 @@ inline std::string make_char_constant(
             constant_value, type_length, location);
     }
 
-    return fmt::format("'{}'", constant_value);
+    return fmt::format("'{}'", escape_string_literal(constant_value));
 }
 
 inline std::string numeric_literal_to_value(
